@@ -12,7 +12,7 @@ TARGETED = [("shallow3", "decoys", None), ("weakchiral4", "decoys", True), ("chi
             ("axis_asym4", "antiparallel", None), ("pair_y", "antiparallel", None), ("asym4", "corners", None), ("bent3_y", "stretched", None),
             ("collinear3", "corners", None), ("single", "mixed", None),
             ("pair", "stretched-axis", None), ("axis_asym4", "stretched-axis", None), ("shallow3", "stretched-axis", None), ("asym4", "stretched-axis", None),
-            ("asym4", "crowded", True)]
+            ("asym4", "crowded", True), ("faintchiral5", "decoys", True), ("faintchiral5", "decoys", None)]
 
 
 def py_out_problem(c, idx, mpos, q):
@@ -68,10 +68,11 @@ def run_find_property(pid, tier, seed, replay, propfiles, flavors, ncases, rule,
         if not replay:
             # situations that random pairing of pattern and flavour reaches only now and then are generated on every run
             for ti, (pat, flavor, big) in enumerate(TARGETED):
-                for rep in range(2):
-                    c = FG.make_case(run.rng, 1000 + 17 * ti + 5 * rep, flavor=flavor, pattern=pat, big=big)
+                for rep in range(3):
+                    # three consecutive k: the three tolerances 1/20, 1/10, 1/50 each occur once
+                    c = FG.make_case(run.rng, 1000 + 17 * ti + rep, flavor=flavor, pattern=pat, big=big)
                     if c is not None:
-                        cases.append((c, run.rng.randrange(1 << 30), flavor))
+                        cases.append((c, run.rng.randrange(1 << 30), "targeted:" + flavor))
             k = 0
             tries = 0
             while len(cases) < ncases + (1 if replay else 0) and tries < 20 * ncases:
@@ -87,13 +88,13 @@ def run_find_property(pid, tier, seed, replay, propfiles, flavors, ncases, rule,
         results = []
         for ci, (c, s, kind) in enumerate(cases):
             try:
-                if ci % 5 == 3 and kind != "replay" and not c.get("pre"):
+                if ci % 5 == 3 and kind != "replay" and not kind.startswith("targeted") and not c.get("pre"):
                     # the same Atoms object was searched before, when it had another cell and other elements: nothing of that may survive
                     c = FG.restored_case(c)
                     kind = kind + "+reused-object"
                     run.count("reused-object(restored)")
                     cases[ci] = (c, s, kind)
-                elif ci % 5 == 1 and kind != "replay" and len(c["pel"]) > 1 and not c.get("pre"):
+                elif ci % 5 == 1 and kind != "replay" and not kind.startswith("targeted") and len(c["pel"]) > 1 and not c.get("pre"):
                     # searched once as planted, then the cell is enlarged in place: copies across a face are gone, nothing stale may be reported
                     c = FG.grown_case(c)
                     kind = kind + "+cell-enlarged-after-search"
@@ -107,7 +108,9 @@ def run_find_property(pid, tier, seed, replay, propfiles, flavors, ncases, rule,
                 res = ([], np.zeros((0, len(c["pel"]), 3)), [])
             results.append(res)
             run.cov["evaluations"] += 1
-            run.count("flavor=" + kind.split(":")[0])
+            run.count("flavor=" + (kind.split(":")[1] if kind.startswith("targeted:") else kind.split(":")[0]))
+            if kind.startswith("targeted"):
+                run.count("targeted")
             run.count("pattern=" + c["name"])
             run.count("cell=" + c["cellkind"])
             run.count("atol=" + str(c["atol"]))
